@@ -34,4 +34,22 @@ def caseLabelOk (c : Case) : Bool := (c.mode == Mode.negative) == caseSpecNegati
 def compsOk (c : Case) : Bool :=
   allKinds.all fun k => getAssoc k c.comps == (getAssoc k c.contents).map labelOf
 
+/-- the label every template entry carries: positives come first whenever positive values are requested -/
+def baseMode (inp : OpIn) : Mode := if inp.pos then .positive else .negative
+
+/-- what the case-level theorems assume about the values cover_schema_iter handed over (both facts are theorems
+    about the cover model — `cover_positive_only`, `cover_negative_only` — plus "a schema that has values at all has a
+    positive one first", which fails exactly for the F8b/F8d shapes):
+    * no parameter lives in the pseudo-location "body";
+    * when positive values are requested, the first value of every parameter / body generator is positive;
+    * when they are not, every value is negative. -/
+structure WF (inp : OpIn) : Prop where
+  nobody : ∀ p ∈ inp.params, kindOfLocation p.location ≠ some Kind.body
+  headsPos : inp.pos = true →
+    (∀ p ∈ inp.params, ∀ v rest, p.values = v :: rest → v.mode = Mode.positive) ∧
+    (∀ b ∈ inp.bodies, ∀ v rest, b.values = v :: rest → v.mode = Mode.positive)
+  allNeg : inp.pos = false →
+    (∀ p ∈ inp.params, ∀ v ∈ p.values, v.mode = Mode.negative) ∧
+    (∀ b ∈ inp.bodies, ∀ v ∈ b.values, v.mode = Mode.negative)
+
 end SV.Spec.C03
